@@ -29,7 +29,32 @@ PINS = ["gwcs/coordinate_frames.py::CompositeFrame.__init__", "gwcs/coordinate_f
         "gwcs/coordinate_frames.py::CompositeFrame._world_axis_object_components",
         "gwcs/coordinate_frames.py::CompositeFrame._wao_classes_rename_map",
         "gwcs/coordinate_frames.py::CelestialFrame.coordinates", "gwcs/coordinate_frames.py::CelestialFrame._world_axis_object_components",
-        "gwcs/api.py::GWCSAPIMixin.world_axis_physical_types"]
+        "gwcs/api.py::GWCSAPIMixin.world_axis_physical_types",
+        # per-frame metadata the token model abstracts (unit / class entries of every frame kind)
+        "gwcs/coordinate_frames.py::CoordinateFrame._world_axis_object_classes",
+        "gwcs/coordinate_frames.py::CoordinateFrame._world_axis_object_components",
+        "gwcs/coordinate_frames.py::CoordinateFrame._default_axis_physical_types",
+        "gwcs/coordinate_frames.py::CelestialFrame._world_axis_object_classes",
+        "gwcs/coordinate_frames.py::CelestialFrame._default_axis_physical_types",
+        "gwcs/coordinate_frames.py::SpectralFrame._world_axis_object_classes",
+        "gwcs/coordinate_frames.py::SpectralFrame._world_axis_object_components",
+        "gwcs/coordinate_frames.py::SpectralFrame._default_axis_physical_types",
+        "gwcs/coordinate_frames.py::TemporalFrame._world_axis_object_classes",
+        "gwcs/coordinate_frames.py::TemporalFrame._world_axis_object_components",
+        "gwcs/coordinate_frames.py::TemporalFrame._default_axis_physical_types",
+        "gwcs/coordinate_frames.py::StokesFrame._world_axis_object_classes",
+        "gwcs/coordinate_frames.py::StokesFrame._world_axis_object_components",
+        "gwcs/coordinate_frames.py::StokesFrame._default_axis_physical_types",
+        "gwcs/coordinate_frames.py::Frame2D._default_axis_physical_types",
+        "gwcs/coordinate_frames.py::CompositeFrame._wao_renamed_components_iter",
+        "gwcs/coordinate_frames.py::CompositeFrame._wao_renamed_classes_iter",
+        "gwcs/coordinate_frames.py::CompositeFrame._world_axis_object_classes",
+        "gwcs/coordinate_frames.py::CompositeFrame.frames",
+        "gwcs/coordinate_frames.py::CoordinateFrame.axis_physical_types",
+        "gwcs/coordinate_frames.py::CoordinateFrame._set_axis_physical_types",
+        "gwcs/api.py::GWCSAPIMixin.world_axis_object_classes",
+        "gwcs/api.py::GWCSAPIMixin.world_axis_object_components",
+        "gwcs/api.py::GWCSAPIMixin.world_axis_units"]
 HEADER = ("From Coq Require Import List Arith Bool. Import ListNotations.\nFrom GW Require Import C12.Frames.\n"
           "Definition lleq (a b : list (list nat)) : bool := Nat.eqb (length a) (length b) && forallb (fun p => Nat.eqb (length (fst p)) (length (snd p)) "
           "&& forallb (fun q => Nat.eqb (fst q) (snd q)) (combine (fst p) (snd p))) (combine a b).\n"
